@@ -157,6 +157,11 @@ fn corpus_programs(tier: &str, with_comments: bool) -> (Vec<(String, String)>, V
     let thorough = tier == "thorough";
     let sd = seed();
     let mut progs: Vec<(String, String)> = Vec::new();
+    let covers = corpus::cover_programs();
+    let cover_count = covers.len();
+    for p in covers {
+        progs.push(("COVER".into(), p));
+    }
     let n = 5;
     let exh = corpus::exh(n, corpus::BF, !thorough);
     let exh_count = exh.len();
@@ -205,11 +210,6 @@ fn corpus_programs(tier: &str, with_comments: bool) -> (Vec<(String, String)>, V
     let sq_count = sqs.len();
     for p in sqs {
         progs.push(("SQLIVE".into(), p));
-    }
-    let covers = corpus::cover_programs();
-    let cover_count = covers.len();
-    for p in covers {
-        progs.push(("COVER".into(), p));
     }
     let deeps = corpus::gen_deep();
     let deep_count = deeps.len();
